@@ -284,6 +284,52 @@ def cases(seed: int = 0, thorough: bool = False):
             ("arange:u1-negative-step", lambda: pt.arange(u1_(250), u1_(3), i1__(-7), dtype=np.int64),
              lambda: np.arange(250, 3, -7, dtype=np.int64))]:
         add(f"np-int-param:{lbl}", b, r, {}, "np-int-param", exact=True)
+    # comparisons (and what is built from them) are made in NumPy's promoted type — C's usual arithmetic conversions
+    # differ: signed next to unsigned, 64-bit integers next to float32, float32 next to a double literal
+    U32 = np.array([1, 5, 4000000000, 7], dtype=np.uint32)
+    S8 = np.array([-1, -100, 3, 7], dtype=np.int8)
+    U64 = np.array([2 ** 63 + 5, 3, 2 ** 64 - 1, 0], dtype=np.uint64)
+    S64 = np.array([-5, 2 ** 40, 3, -7], dtype=np.int64)
+    F32 = np.array([16777216.0, 0.1, -2, 0.3], dtype=np.float32)
+    L64 = np.array([16777217, 1, -2, 16777217], dtype=np.int64)
+    U8 = np.array([0, 200, 255, 3], dtype=np.uint8)
+    Z64 = np.array([0.1 + 0.2j, 1, 0.3j, 2], dtype=np.complex64)
+    cmpf = {"less": np.less, "less_equal": np.less_equal, "greater": np.greater, "greater_equal": np.greater_equal,
+            "equal": np.equal, "not_equal": np.not_equal, "maximum": np.maximum, "minimum": np.minimum}
+    for nm, f in cmpf.items():
+        for lbl, a, b in [("u32,s8", U32, S8), ("s8,u32", S8, U32), ("u64,s64", U64, S64), ("s64,u64", S64, U64),
+                          ("f32,i64", F32, L64), ("i64,f32", L64, F32), ("u8,s8", U8, S8), ("u8,f32", U8, F32)]:
+            add(f"mixed-compare:{nm}:{lbl}", lambda x, y, nm=nm: getattr(pt, nm)(x, y), lambda x, y, f=f: f(x, y),
+                {"x": a, "y": b}, "mixed-compare", exact=True, always_execute=True)
+        if nm in ("maximum", "minimum"):
+            continue
+        for lbl, a, sc in [("u32,-1", U32, -1), ("u8,-1", U8, -1), ("u8,300", U8, 300), ("s8,200", S8, 200),
+                           ("u32,int8(-1)", U32, np.int8(-1)), ("u64,int64(-5)", U64, np.int64(-5)),
+                           ("f32,0.1", F32, 0.1), ("f32,0.3", F32, 0.3), ("f32,float64(0.1)", F32, np.float64(0.1)),
+                           ("f32,16777217", F32, 16777217), ("u8,2.5", U8, 2.5), ("u64,2**62", U64, 2 ** 62)]:   # (loopy cannot type integer literals >= 2**63)
+            add(f"mixed-compare:{nm}:{lbl}", lambda x, nm=nm, sc=sc: getattr(pt, nm)(x, sc), lambda x, f=f, sc=sc: f(x, sc),
+                {"x": a}, "mixed-compare", exact=True, always_execute=True)
+            add(f"mixed-compare:{nm}:r:{lbl}", lambda x, nm=nm, sc=sc: getattr(pt, nm)(sc, x), lambda x, f=f, sc=sc: f(sc, x),
+                {"x": a}, "mixed-compare", exact=True, always_execute=True)
+    for nm in ("equal", "not_equal"):
+        add(f"mixed-compare:{nm}:c64,0.1+0.2j", lambda x, nm=nm: getattr(pt, nm)(x, 0.1 + 0.2j),
+            lambda x, f=cmpf[nm]: f(x, 0.1 + 0.2j), {"x": Z64}, "mixed-compare", exact=True, always_execute=True)
+    Z128 = Z64.astype(np.complex128)
+    for nm in ("equal", "not_equal"):
+        for lbl, a, sc in [("c128,0.1+0.2j", Z128, 0.1 + 0.2j), ("c128,1", Z128, 1), ("c128,0.3j", Z128, 0.3j),
+                           ("f64,1+0j", np.array([1.0, 2.0, 0.5]), 1 + 0j)]:
+            add(f"mixed-compare:{nm}:{lbl}", lambda x, nm=nm, sc=sc: getattr(pt, nm)(x, sc),
+                lambda x, f=cmpf[nm], sc=sc: f(x, sc), {"x": a}, "mixed-compare", exact=True, always_execute=True)
+            if isinstance(sc, complex) and sc.imag != 0:
+                # loopy types a comparison through `left - right`; with a complex constant on the LEFT that difference
+                # loses the constant's size and type inference fails (sized or not; on the right a sized one works)
+                continue
+            add(f"mixed-compare:{nm}:r:{lbl}", lambda x, nm=nm, sc=sc: getattr(pt, nm)(sc, x),
+                lambda x, f=cmpf[nm], sc=sc: f(sc, x), {"x": a}, "mixed-compare", exact=True, always_execute=True)
+    add("mixed-compare:where(u32<s8)", lambda x, y: pt.where(pt.less(x, y), x, y), lambda x, y: np.where(x < y, x, y),
+        {"x": U32, "y": S8}, "mixed-compare", exact=True, always_execute=True)
+    add("mixed-compare:sum(u32>s8)", lambda x, y: pt.sum(pt.greater(x, y) * 1), lambda x, y: np.sum((x > y) * 1),
+        {"x": U32, "y": S8}, "mixed-compare", exact=True, always_execute=True)
     # constructors
     for sh in [(2, 3), (), (0, 2)]:
         for dt in ("float64", "int32", "bool"):
